@@ -50,6 +50,40 @@ Theorem C06_native_port_only : forall p p', norm_native p = Ok p' ->
 Proof. exact norm_native_spec. Qed.
 Print Assumptions C06_native_port_only.
 
+(* ... and that cut keeps host name and user information: only the port is ignored *)
+Theorem C06_native_keeps_host : forall p p', norm_native p = Ok p' ->
+  hostname p' = hostname p /\ userinfo_text (netloc p') = userinfo_text (netloc p).
+Proof. exact norm_native_keeps_host. Qed.
+Print Assumptions C06_native_keeps_host.
+
+Theorem C06_match_sound_native : forall regs oidc u,
+  regs <> [] -> verify_uri regs true oidc u = Ok tt ->
+  exists d p r rp,
+    unquote u = Ok d /\ urlparse d = Ok p /\ In r regs /\ parse_reg r = Ok rp /\
+    fragment p = [] /\ scheme p = scheme (fst rp) /\
+    hostname p = hostname (fst rp) /\ userinfo_text (netloc p) = userinfo_text (netloc (fst rp)) /\
+    path p = path (fst rp) /\ params p = params (fst rp) /\
+    (exists qd, parse_qs (query p) = Ok qd /\ qd_eqb qd (snd rp) = true).
+Proof. exact verify_uri_sound_native. Qed.
+Print Assumptions C06_match_sound_native.
+
+(* the components the theorems speak about are literally the pieces of the (repair-free) text *)
+Theorem C06_components_are_pieces : forall d p, clean d = true -> urlsplit d = Ok p ->
+  exists S rest rest2 rest3,
+    ((scheme p = [] /\ rest = d) \/ (scheme p = lower S /\ d = S ++ 58 :: rest)) /\
+    ((netloc p = [] /\ rest2 = rest) \/ rest = 47 :: 47 :: netloc p ++ rest2) /\
+    ((fragment p = [] /\ rest3 = rest2) \/ rest2 = rest3 ++ 35 :: fragment p) /\
+    ((query p = [] /\ path p = rest3) \/ rest3 = path p ++ 63 :: query p) /\
+    params p = [].
+Proof. exact urlsplit_pieces. Qed.
+Print Assumptions C06_components_are_pieces.
+Theorem C06_params_are_pieces : forall d p, clean d = true -> urlparse d = Ok p ->
+  exists ps, urlsplit d = Ok ps /\ scheme p = scheme ps /\ netloc p = netloc ps /\ query p = query ps /\
+             fragment p = fragment ps /\
+             ((params p = [] /\ path p = path ps) \/ path ps = path p ++ 59 :: params p).
+Proof. exact urlparse_pieces. Qed.
+Print Assumptions C06_params_are_pieces.
+
 (* the query comparison is Python dict equality *)
 Theorem C06_query_multimap : forall a b, qd_eqb a b = true ->
   length a = length b /\ forall k v, In (k, v) a -> assoc k b = Some v.
@@ -222,6 +256,8 @@ Proof.
   - eexists. split; [vm_compute; reflexivity|]. intros _. eexists. vm_compute. reflexivity.
   - repeat split; vm_compute; reflexivity.
 Qed.
+Example C06_nonvacuous_pieces : clean cb = true /\ clean lo4 = true /\ exists p, urlparse cb = Ok p.
+Proof. repeat split; try (vm_compute; reflexivity). eexists. vm_compute. reflexivity. Qed.
 Example C06_nonvacuous_decide :
   decide [RPair cb None] false true (Some cb) = Redirectable cb
   /\ decide [RPair cb None] false true (Some (PS "https://evil.example.org/cb"%string)) = DirectError
